@@ -88,34 +88,7 @@ impl<T> Iterator for Plain<T> {
     }
 }
 
-/// An iterator with a configurable size hint that always honours the `Iterator::size_hint`
-/// contract (lower <= remaining <= upper): lower kind 0 = 0, 1 = half, 2 = exact; upper kind
-/// 0 = None, 1 = exact, 2 = one too many, 3 = four too many (what `filter` reports),
-/// 4 = `usize::MAX`, 5 = twice as many.
-struct Hinted<T>(std::vec::IntoIter<T>, u8, u8);
-impl<T> Iterator for Hinted<T> {
-    type Item = T;
-    fn next(&mut self) -> Option<T> {
-        self.0.next()
-    }
-    fn size_hint(&self) -> (usize, Option<usize>) {
-        let n = self.0.len();
-        let lo = match self.1 {
-            0 => 0,
-            1 => n / 2,
-            _ => n,
-        };
-        let hi = match self.2 {
-            0 => None,
-            1 => Some(n),
-            2 => Some(n + 1),
-            3 => Some(n + 4),
-            4 => Some(usize::MAX),
-            _ => Some(n * 2),
-        };
-        (lo, hi)
-    }
-}
+use crate::iters::Hinted;
 
 #[derive(Debug, PartialEq, Clone)]
 enum Ret<T> {
